@@ -246,6 +246,13 @@ class SymEx:
                 val = sel(val, step[1])
         if isinstance(val, tuple) and val[0] == 'ref':
             val = self.read(st, val[1])
+        if isinstance(val, tuple) and val and val[0] == 'moved' and self.frames and not getattr(self, '_in_moved', False):
+            self._in_moved = True
+            try:
+                self.effect(st, 'moved_read', var=self.root_name(root) if isinstance(root, tuple) else
+                            (self.lookup_name(root) or str(root)), moved_at=val[2], where=val[2])
+            finally:
+                self._in_moved = False
         return val
 
     def root_name(self, root):
@@ -480,6 +487,12 @@ class SymEx:
                     binds.append((p, sym('default:' + str(p.name))))
                 continue
             if is_ref(p.type):
+                if is_stream_type(ir.strip_cvref(p.type or '')):
+                    sv = self.eval(st, a)
+                    if isinstance(sv, tuple) and sv and sv[0] == 'stream':
+                        # a stream handed on by reference is that stream (std::cout passed to a printing helper)
+                        binds.append((p, sv))
+                        continue
                 lv = self.eval_lv(st, a)
                 if lv is not None:
                     binds.append((p, lv))
@@ -772,6 +785,24 @@ class SymEx:
         elif cnode.op == 'opcall' and cnode.a.get('opname') in ('operator!=', 'operator<'):
             l, r = cnode.k
         else:
+            return None
+        def strip(x):
+            while x is not None and x.op in ('paren', 'cast') and x.k and x.a.get('kind') not in ('IntegralCast',):
+                x = x.k[0]
+            return x
+        l, r = strip(l), strip(r)
+        is_ne = (cnode.a.get('o') == '!=') or cnode.a.get('opname') == 'operator!='
+        if is_ne and not (l.op == 'var' and l.a['id'] == vid) and \
+                ((r.op == 'var' and r.a['id'] == vid) or (r.op == 'bin' and r.a.get('o') == '+')):
+            # `n != i` / `n != i + 1`: the comparison is symmetric
+            l, r = r, l
+        if l.op == 'bin' and l.a.get('o') == '+' and is_ne:
+            # `(i + c) != n` with a literal c: i runs to n - c (unsigned: the caller's rules decide whether n >= c)
+            a_, b_ = strip(l.k[0]), strip(l.k[1])
+            if b_.op == 'var' and b_.a.get('id') == vid:
+                a_, b_ = b_, a_
+            if a_.op == 'var' and a_.a.get('id') == vid and b_.op == 'lit' and isinstance(b_.a.get('value'), int):
+                return (vid, lo, sub(self.eval(st, r), num(b_.a['value'])), None)
             return None
         if not (l.op == 'var' and l.a['id'] == vid):
             return None
@@ -1731,7 +1762,7 @@ class SymEx:
 
     def truth(self, v):
         if isinstance(v, tuple) and v[0] in ('bool', '<', '<=', '>', '>=', '==', '!=', 'and', 'or',
-                                             'not', 'ite'):
+                                             'not', 'ite', 'truth'):
             return v
         if is_num(v):
             return TRUE if v[1] != 0 else FALSE
@@ -2078,11 +2109,31 @@ class SymEx:
         raise AnalysisBroken('statement in expression position at %s' % e.where())
 
     # -- constructions
+    def mark_moved(self, st, arg, e):
+        """`T x(std::move(y))` / `x = std::move(y)` / passing std::move(y) to a by-value parameter: y is left in an
+        unspecified state (for containers: empty).  The source becomes ('moved', type, where); reading it later is
+        recorded as a `moved_read` effect."""
+        ctype = e.a.get('ctype') or e.a.get('ftype') or ''
+        if '&&' not in ctype:
+            return
+        a = arg
+        while a is not None and a.op in ('cast', 'materialize', 'bindtemp', 'paren') and a.k:
+            a = a.k[0]
+        if a is None or a.op != 'call' or a.a.get('name') != 'move' or len(a.k) != 1:
+            return
+        src = self.eval_lv(st, a.k[0])
+        if src is None:
+            return
+        t = ir.strip_cvref(a.k[0].ty or '')
+        self.write(st, src, ('moved', t, e.where()))
+
     def e_construct(self, st, e):
         t = e.a.get('type') or ''
         args = e.k
         if e.a.get('copy') and len(args) == 1:
-            return self.eval(st, args[0])
+            v = self.eval(st, args[0])
+            self.mark_moved(st, args[0], e)
+            return v
         if is_vector_type(t):
             real = [a for a in args if a.op != 'defaultarg']
             if not real:
@@ -2198,6 +2249,10 @@ class SymEx:
             self.effect(st, 'draw', gen=glv, where=e.where(), node=e.cid, callee=e.a.get('id'),
                         probe=e.a.get('probe'))
             return ('rand', n) + tuple(self.loop_idx)
+        if name == 'back_inserter' and len(args) == 1:
+            blv = self.eval_lv(st, args[0])
+            if blv is not None:
+                return ('backins', blv, ir.strip_cvref(args[0].ty or ''))
         if name in ('forward', 'move', 'addressof') and len(args) == 1:
             if name == 'addressof':
                 lv = self.eval_lv(st, args[0])
@@ -2280,6 +2335,19 @@ class SymEx:
             r_ = self.std_loop_algorithm(st, e, name, args)
             if r_ is not None:
                 return r_
+        # a callable with side effects on captured variables handed to an algorithm that is not executed as a loop
+        # here: its effects would be lost silently
+        for a_ in (args if name in ('for_each', 'generate', 'generate_n', 'for_each_n', 'all_of', 'any_of', 'none_of',
+                                     'count_if', 'find_if', 'find_if_not', 'remove_if', 'replace_if') else ()):
+            lam = a_
+            while lam is not None and lam.op in ('cast', 'materialize', 'bindtemp', 'paren', 'construct') and lam.k:
+                lam = lam.k[0]
+            if lam is not None and lam.op == 'var':
+                lv_ = self.eval(st, lam)
+                lam = lv_[2] if isinstance(lv_, tuple) and lv_ and lv_[0] == 'lambda' else None
+            if lam is not None and lam.op == 'lambda' and self.lambda_writes_captures(lam):
+                raise AnalysisBroken('std::%s at %s is called with a callable that modifies captured variables; this '
+                                     'use of the algorithm is not modelled' % (name, e.where()))
         if name in ('copy', 'copy_n') and len(args) == 3 and name == 'copy_n':
             a_ = self.eval(st, args[0])
             n_ = self.eval(st, args[1])
@@ -2370,6 +2438,14 @@ class SymEx:
             if name == 'empty':
                 return T.cmp('==', ('size', v), ZERO)
             vals = [self.eval(st, a) for a in args]
+            if name in ('erase', 'append', 'push_back', 'pop_back', 'resize', 'clear', 'insert', 'replace', 'assign',
+                        'swap', 'shrink_to_fit', 'reserve') and name not in ('reserve', 'shrink_to_fit'):
+                # mutating member: the string object itself changes
+                slv = self.eval_lv(st, objnode)
+                nv = ('str', '') if name == 'clear' else ('strop', name, v) + tuple(vals)
+                if slv is not None:
+                    self.write(st, slv, nv)
+                return nv
             return ('strop', name, v) + tuple(vals)
         if name == 'discard':
             glv = self.eval_lv(st, objnode)
@@ -2499,6 +2575,12 @@ class SymEx:
                     kk = sym(self.fresh('k@ins'))
                     self.write(st, lv, ('vcomp', vec, kk, ZERO, n_, TRUE, val))
                     return ('void',)
+                if isinstance(val, tuple) and val and val[0] == 'iter' and val[1] == n_[1] and \
+                        (vec == vempty() or size(vec) == ZERO):
+                    # v.insert(v.end(), first, last) into an empty vector: the same as v.assign(first, last)
+                    src = self.read(st, n_[1]) if is_lv(n_[1]) else n_[1]
+                    self.write(st, lv, ('vslice', src, n_[2], val[2]))
+                    return ('void',)
         if name == 'resize':
             vals = [self.eval(st, a) for a in args if a.op != 'defaultarg']
             if lv is not None:
@@ -2604,6 +2686,34 @@ class SymEx:
     def e_lvref(self, st, e):
         return self.read(st, e.a['lv'])
 
+    def lambda_writes_captures(self, lam):
+        local = set()
+        for nd in lam.walk():
+            if nd.op in ('decl', 'rangefor', 'param') and nd.a.get('id') is not None:
+                local.add(nd.a['id'])
+        for q in (lam.a.get('params') or []):
+            qid = q.get('id') if isinstance(q, dict) else getattr(q, 'id', None)
+            if qid:
+                local.add(qid)
+        for nd in lam.walk():
+            tgt = None
+            if nd.op == 'assign' and nd.k:
+                tgt = nd.k[0]
+            elif nd.op == 'un' and nd.a.get('o') in ('++', '--') and nd.k:
+                tgt = nd.k[0]
+            elif nd.op == 'mcall' and nd.a.get('name') in ('push_back', 'emplace_back', 'clear', 'resize', 'insert',
+                                                              'erase', 'pop_back', 'assign') and nd.k:
+                tgt = nd.k[0]
+            if tgt is None:
+                continue
+            while tgt is not None and tgt.op in ('index', 'mem', 'opcall', 'cast', 'paren', 'mcall') and tgt.k:
+                tgt = tgt.k[0]
+            if tgt is not None and tgt.op == 'var' and tgt.a.get('id') not in local:
+                return True
+            if tgt is not None and tgt.op == 'this':
+                return True
+        return False
+
     def std_loop_algorithm(self, st, e, name, args):
         """std::generate / generate_n / for_each / fill / fill_n / unary transform over a range of an
         addressable container with an inlinable callable: executed as the equivalent counting loop
@@ -2611,7 +2721,39 @@ class SymEx:
         Returns None when the call does not have that shape (the caller falls back to the opaque
         model)."""
         a = self.eval(st, args[0])
-        if not (isinstance(a, tuple) and a and a[0] == 'iter' and is_lv(a[1])):
+        if name == 'generate_n' and isinstance(a, tuple) and a and a[0] == 'backins' and len(args) == 3:
+            # std::generate_n(std::back_inserter(v), n, f): n times v.push_back(f())
+            fv = self.eval(st, args[2])
+            if not (isinstance(fv, tuple) and fv and fv[0] == 'lambda'):
+                return None
+            self._synth = getattr(self, '_synth', 0) + 1
+            vid = 'k%d@%s' % (self._synth, e.cid)
+            loc = e.loc
+            n_ = self.eval(st, args[1])
+            call = N('opcall', [args[2]], loc=loc, cid=e.cid, opname='operator()')
+            push = N('mcall', [N('lvref', lv=a[1], loc=loc, ty=a[2]), call], loc=loc, cid=e.cid, name='push_back',
+                     objtype=a[2], hep=False)
+            init = N('decl', [N('term', term=ZERO, loc=loc, ty='unsigned long')], loc=loc, id=vid, name='k',
+                     type='unsigned long')
+            kv = N('var', ty='unsigned long', loc=loc, id=vid, name='k')
+            cond = N('bin', [kv, N('term', term=n_, loc=loc, ty='unsigned long')], loc=loc, o='!=', ty='bool')
+            inc = N('un', [N('var', ty='unsigned long', loc=loc, id=vid, name='k')], loc=loc, o='++')
+            loop = N('for', [init, cond, inc, N('block', [N('expr', [push], loc=loc)], loc=loc)], loc=loc,
+                     cid='synth%d@%s' % (self._synth, e.cid))
+            if self.exec_loop(st, loop) is not None:
+                raise AnalysisBroken('callable handed to std::generate_n leaves the loop at %s' % e.where())
+            return ('ext', self.fresh(name))
+        if name in ('for_each', 'transform') and isinstance(a, tuple) and a and a[0] in ('sym', 'pre') and len(args) > 1:
+            # a read-only range given by two opaque iterators (unbound iterator parameters): elements of an abstract
+            # sequence of length distance(first, last)
+            b0 = self.eval(st, args[1])
+            if isinstance(b0, tuple) and b0 and b0[0] in ('sym', 'pre'):
+                rng = ('range', a, b0)
+                T.SIZES[rng] = ('distance', a, b0)
+                a = ('iter', rng, ZERO)
+                self._opaque_range_end = (args[1], ('iter', rng, ('distance', a[1][1], b0)))
+        if not (isinstance(a, tuple) and a and a[0] == 'iter' and
+                (is_lv(a[1]) or (name in ('for_each', 'transform') and isinstance(a[1], tuple)))):
             return None
         base = a[1]
         lo = a[2]
@@ -2620,6 +2762,10 @@ class SymEx:
             rest = args[2:]
         else:
             b = self.eval(st, args[1])
+            ore = getattr(self, '_opaque_range_end', None)
+            if ore is not None and ore[0] is args[1]:
+                b = ore[1]
+                self._opaque_range_end = None
             if not (isinstance(b, tuple) and b and b[0] == 'iter' and b[1] == base):
                 return None
             hi = b[2]
@@ -2634,6 +2780,9 @@ class SymEx:
         def elem(lv, off=None):
             idx = var() if off is None else N('bin', [var(), N('term', term=off, loc=loc, ty='unsigned long')],
                                                loc=loc, o='+', ty='unsigned long')
+            if not is_lv(lv):
+                # a range that is only read (elements of a container given by value / by iterator parameters)
+                return N('index', [N('term', term=lv, loc=loc), idx], loc=loc)
             return N('index', [N('lvref', lv=lv, loc=loc), idx], loc=loc)
 
         def callf(fnode, fargs):
@@ -2653,6 +2802,14 @@ class SymEx:
             stmt = c
         elif name in ('fill', 'fill_n'):
             stmt = N('assign', [elem(base), rest[0]], loc=loc, o='=')
+        elif name == 'transform' and len(rest) == 2 and isinstance(self.eval(st, rest[0]), tuple) and \
+                self.eval(st, rest[0])[:1] == ('backins',):
+            d = self.eval(st, rest[0])
+            c = callf(rest[1], [elem(base)])
+            if c is None:
+                return None
+            stmt = N('mcall', [N('lvref', lv=d[1], loc=loc, ty=d[2]), c], loc=loc, cid=e.cid, name='push_back',
+                     objtype=d[2], hep=False)
         elif name == 'transform' and len(rest) == 2:
             d = self.eval(st, rest[0])
             if not (isinstance(d, tuple) and d and d[0] == 'iter' and is_lv(d[1])):
@@ -2735,6 +2892,7 @@ class SymEx:
         if opn == 'operator=' and len(args) == 2:
             lv = self.eval_lv(st, args[0])
             v = self.eval(st, args[1])
+            self.mark_moved(st, args[1], e)
             if lv is not None:
                 self.write(st, lv, v)
             return v
